@@ -619,9 +619,9 @@ func (a *snapRun) saveConc(rec *snapRec, rest []Op) {
 		if len(parked) == 0 {
 			break
 		}
-		tk := parked[a.dice.Next(len(parked))]
+		tk, stuck := PickFair(parked, a.dice.Next(len(parked)), 300)
 		s.noteChoice(len(parked), tk.Site)
-		if strings.HasPrefix(tk.Site, "spin:") && tk.Spins > 300 {
+		if stuck {
 			a.fail("livelock/"+tk.Site, fmt.Sprintf("task t%d spun %d times at %s", tk.ID, tk.Spins, tk.Site))
 			return
 		}
